@@ -419,3 +419,29 @@ def check_ginv(run, rule='R21'):
     for nm_, want_s in (('v', 'Ginv @ t'), ('w', 'vex(S)'), ('S', 'trlog(R, check=False)')):
         ok = txt.get(nm_) == want_s
         (run.holds if ok else run.violation)(rule, f.key, 'SE(3) log: ' + nm_, '%s = %s' % (nm_, want_s) if ok else '%s is %s, expected %s' % (nm_, txt.get(nm_), want_s), f=f)
+
+
+# ------------------------------------------------------------------------------------------------ (f) exp depends on S
+def check_exp_dependence(run, rule='R17'):
+    """Information dependence: on every value-returning path of trexp / trexp2 other than the identity returns, the value is
+    data-dependent on the algebra element S (uses in validity guards do not count): exp(S, theta) for a unit twist is
+    exp(theta * S), so a path whose result is computed from theta alone loses the direction (sign) of S."""
+    from .r16_tables import Ctx, sl_eval
+    for key in ('base/transforms3d:trexp', 'base/transforms2d:trexp2'):
+        cx = Ctx(run, key)
+        f = cx.f
+        S = cx.pname(0)
+        n = 0
+        for (r, e) in sl_eval(cx):
+            if matches('eye(__)', e) is not None:
+                continue
+            n += 1
+            names = {y.id for y in ast.walk(e) if isinstance(y, ast.Name)}
+            construct = 'dependence on %s: return %s' % (S, src(r.value, 40))
+            if S in names:
+                run.holds(rule, key, construct, 'the returned value is computed from the algebra element', f=f, node=r)
+            else:
+                run.violation(rule, key, construct, 'on this path the result (%s) does not depend on %s at all: the direction / sign of the unit '
+                              'twist is lost, exp(S, theta) != exp(theta * S) for the negative of a unit element' % (src(e, 50), S), f=f, node=r)
+        if n < 2:
+            run.error('R17: %s: fewer than 2 non-identity returns evaluated' % key)
